@@ -65,3 +65,9 @@ Proof. exact read_frame. Qed.
 From VProofs Require Import MsgProofs.
 Theorem c10_kexinit_roundtrip : forall k p r, wf_kexinit k -> write_kexinit k = Ok p -> parse_kexinit (p ++ r) = Ok (k, r).
 Proof. exact kexinit_roundtrip. Qed.
+
+(* SSH-1 mpint (unsigned, 16-bit bit count) for every non-negative integer that fits, and whole SSH-1 public key messages *)
+Theorem c10_mpint1_roundtrip : forall n r bs, 0 <= n -> enc_mpint1 n = Ok bs -> dec_mpint1 (bs ++ r) = Ok (n, r).
+Proof. exact mpint1_roundtrip. Qed.
+Theorem c10_pkm_roundtrip : forall m p r, wf_pkm m -> write_pkm m = Ok p -> parse_pkm (p ++ r) = Ok (m, r).
+Proof. exact pkm_roundtrip. Qed.
